@@ -297,7 +297,18 @@ func closeInterval(fn *ssa.Function, field string, depth int, memo map[*ssa.Func
 		case *ssa.Go:
 			return 0, 0
 		case *ssa.Defer:
-			return 0, 0 // counted below, once per function, as running at every exit
+			// a deferred call registered on this path runs at the exit of the path: it counts where it is registered. A
+			// recovering handler closes only after a panic, which is not a normal path
+			if bi, ok := x.Common().Value.(*ssa.Builtin); ok {
+				if bi.Name() == "close" && len(x.Common().Args) == 1 && closesField(x.Common().Args[0]) {
+					return 1, 1
+				}
+				return 0, 0
+			}
+			if callee, _ := calleeOf(x); callee != nil && isModuleFn(callee) && !recoversDirectly(callee) {
+				return closeInterval(callee, field, depth+1, memo)
+			}
+			return 0, 0
 		case ssa.CallInstruction:
 			if bi, ok := x.Common().Value.(*ssa.Builtin); ok {
 				if bi.Name() == "close" && len(x.Common().Args) == 1 && closesField(x.Common().Args[0]) {
@@ -498,6 +509,35 @@ var ruleF3 = &Rule{
 							}
 							if idx := paramOfDynCall(ci, mc, fn); idx >= 0 {
 								dyn[ci] = idx
+							}
+						}
+					}
+					// the goroutine's function runs a function value the go statement itself hands it (`go p.runDecoder(parser.Decode, …)`):
+					// the parser's Decode may be one of them
+					if decode == nil {
+						for _, gb := range gf.Blocks {
+							for _, gi := range gb.Instrs {
+								ci, ok := gi.(ssa.CallInstruction)
+								if !ok || ci.Common().IsInvoke() {
+									continue
+								}
+								if p, ok := ci.Common().Value.(*ssa.Parameter); ok {
+									for i, q := range gf.Params {
+										if q == p && i < len(gs.Common().Args) {
+											fa := funcArgOf(gs.Common().Args[i])
+											for _, m := range fa.methods {
+												if m == "Decode" {
+													decode = ci.(ssa.Instruction)
+												}
+											}
+											for _, f := range fa.fns {
+												if f.Name() == "Decode" {
+													decode = ci.(ssa.Instruction)
+												}
+											}
+										}
+									}
+								}
 							}
 						}
 					}
